@@ -275,6 +275,9 @@ func cmdCheck(args []string) int {
 		rep.Notes = c.unsupported
 		ctxs = append(ctxs, c)
 	}
+	for _, msg := range guardCoverage(P, CS, *prop) {
+		violation("lock.coverage:"+truncate(msg, 80), map[string]interface{}{"obligation": "lock.coverage", "error": msg}, false)
+	}
 	timeout := 10
 	if *tier == "thorough" {
 		timeout = 60
